@@ -20,6 +20,11 @@ def gen_cases(ctx):
     for k in range(n_rand):
         ndim = rng.choice([1, 1, 1, 2])
         c = dc.rand_case(rng, maxlen if k % 3 else 5, ndim=ndim, allow_mld=False, allow_maxstep=(k % 5 == 0))
+        if k % 2 == 0 and not c.get("penalty"):
+            c["penalty"] = rng.choice([1, 2, 3])
+        if k % 4 == 0:
+            r_, c_ = dc.npoints(c)
+            c["window"] = rng.choice([1, 2, 2, 3])
         if ndim > 1:
             c["inner"] = "sq"
         cases.append(c)
@@ -241,6 +246,29 @@ def custom_start(ctx, res, lib, case, out, s1, s2, kw, pen_int):
     if not cells:
         return
     kw2 = dict(kw)
+    # C custom start: every finite cell of small matrices, a sample of larger ones
+    s = native.settings_from_case(case)
+    length = lib.dtw_settings_wps_length(r, c, C.byref(s))
+    buf = (C.c_double * length)()
+    fn = lib.dtw_warping_paths_euclidean if case.get("inner") == "abs" else lib.dtw_warping_paths
+    fn(buf, native.darr(case["s1"]), r, native.darr(case["s2"]), c, True, True, False, C.byref(s))
+    ccells = cells if len(cells) <= 64 else ctx.rng.sample(cells, 12)
+    for (I, J) in ccells:
+        want = matU[I][J] // dc.SCALE
+        res.evaluations += 1
+        i1 = (native.idx_t * (r + c + 8))(*([-99] * (r + c + 8)))
+        i2 = (native.idx_t * (r + c + 8))(*([-99] * (r + c + 8)))
+        n = lib.dtw_best_path_customstart(buf, i1, i2, r, c, I, J, C.byref(s))
+        if any(i1[k] != -99 or i2[k] != -99 for k in range(r + c, r + c + 8)) or n > r + c:
+            res.violations.append({"clause": "index arrays of length l1+l2 suffice", "route": "dtw_best_path_customstart",
+                                   "case": case, "start_cell": [I, J], "n": int(n)})
+            continue
+        path = [(int(i1[k]), int(i2[k])) for k in range(n)][::-1]
+        ok, why, cost = check_path(case, path, partial_end=(I - 1, J - 1))
+        if not ok or cost != want:
+            res.violations.append({"clause": "custom start: valid partial path achieving the cell value",
+                                   "route": "dtw_best_path_customstart", "case": case, "start_cell": [I, J],
+                                   "why": why, "path_cost": cost, "cell_value": want, "path": path})
     for (I, J) in ctx.rng.sample(cells, min(2, len(cells))):
         want = matU[I][J] // dc.SCALE
         for name, fast in (("best_path(row,col) python", False), ("best_path(row,col) C matrix", True)):
@@ -259,26 +287,6 @@ def custom_start(ctx, res, lib, case, out, s1, s2, kw, pen_int):
                 res.violations.append({"clause": "custom start: valid partial path achieving the cell value",
                                        "route": name, "case": case, "start_cell": [I, J], "why": why,
                                        "path_cost": cost, "cell_value": want, "path": path})
-        # C dtw_best_path_customstart on the compact buffer
-        res.evaluations += 1
-        s = native.settings_from_case(case)
-        length = lib.dtw_settings_wps_length(r, c, C.byref(s))
-        buf = (C.c_double * length)()
-        fn = lib.dtw_warping_paths_euclidean if case.get("inner") == "abs" else lib.dtw_warping_paths
-        fn(buf, native.darr(case["s1"]), r, native.darr(case["s2"]), c, True, True, False, C.byref(s))
-        i1 = (native.idx_t * (r + c + 8))(*([-99] * (r + c + 8)))
-        i2 = (native.idx_t * (r + c + 8))(*([-99] * (r + c + 8)))
-        n = lib.dtw_best_path_customstart(buf, i1, i2, r, c, I, J, C.byref(s))
-        if any(i1[k] != -99 or i2[k] != -99 for k in range(r + c, r + c + 8)) or n > r + c:
-            res.violations.append({"clause": "index arrays of length l1+l2 suffice", "route": "dtw_best_path_customstart",
-                                   "case": case, "start_cell": [I, J], "n": int(n)})
-            continue
-        path = [(int(i1[k]), int(i2[k])) for k in range(n)][::-1]
-        ok, why, cost = check_path(case, path, partial_end=(I - 1, J - 1))
-        if not ok or cost != want:
-            res.violations.append({"clause": "custom start: valid partial path achieving the cell value",
-                                   "route": "dtw_best_path_customstart", "case": case, "start_cell": [I, J],
-                                   "why": why, "path_cost": cost, "cell_value": want, "path": path})
 
 
 def replay(ctx, rep):
